@@ -40,6 +40,7 @@ static Run run_tool(Case &c, const std::string &tool, const std::vector<std::str
     int nul = open("/dev/null", O_RDONLY); if (stdin_text) { std::string ip = std::string(h_workdir()) + strf("/c20.stdin.%d", (int)getpid()); int wf = open(ip.c_str(), O_WRONLY | O_CREAT | O_TRUNC, 0600); if (wf >= 0) { if (write(wf, stdin_text->data(), stdin_text->size()) < 0) _exit(126); close(wf); } nul = open(ip.c_str(), O_RDONLY); unlink(ip.c_str()); } dup2(nul, 0); dup2(po[1], 1); dup2(pe[1], 2); close(po[0]); close(pe[0]);
     setenv("ASAN_OPTIONS", "exitcode=42:detect_leaks=0:abort_on_error=0:allocator_may_return_null=1:symbolize=1:external_symbolizer_path=/usr/bin/llvm-symbolizer-14", 1);
     setenv("UBSAN_OPTIONS", "print_stacktrace=1:halt_on_error=1:exitcode=43:external_symbolizer_path=/usr/bin/llvm-symbolizer-14", 1);
+    { std::string cw = std::string(h_workdir()) + "/cwd"; mkdir(cw.c_str(), 0700); if (chdir(cw.c_str()) != 0) _exit(125); }   // an empty directory: "-i <synthetic>" names a file when one exists under that name
     std::vector<char *> av; std::string path = g_tools + "/" + tool; av.push_back((char *)path.c_str()); for (auto &a : args) av.push_back((char *)a.c_str()); av.push_back(NULL);
     execv(path.c_str(), av.data()); _exit(127);
   }
